@@ -768,14 +768,34 @@ func (r *Resolver) inlineResult(c *ssa.Call, idx int, d int) *Term {
 // store that lies on every path to a succeeding return; the other fields stay opaque. What a failing return hands
 // back is not described (the error is).
 func (r *Resolver) recordResult(h *ssa.Function, idx int) *Term {
+	t, _ := r.recordResult2(h, idx)
+	return t
+}
+
+// RecordStatus: result idx of h is a record in the sense of recordResult (isRecord), and every field of it that is
+// assigned at all is assigned exactly once on every path to a succeeding return (clean). A record that is not clean
+// carries values whose presence depends on the path taken inside h.
+func (r *Resolver) RecordStatus(h *ssa.Function, idx int) (isRecord, clean bool) {
+	if idx >= h.Signature.Results().Len() || len(h.Blocks) == 0 {
+		return false, false
+	}
+	t, opaque := r.recordResult2(h, idx)
+	if t == nil && opaque < 0 {
+		return false, false
+	}
+	return true, t != nil && opaque == 0
+}
+
+// recordResult2: the record, and the number of fields left opaque (-1: not a record at all).
+func (r *Resolver) recordResult2(h *ssa.Function, idx int) (*Term, int) {
 	rt := h.Signature.Results().At(idx).Type()
 	named, ok := rt.(*types.Named)
 	if !ok || named.Obj().Pkg() == nil || !prog.InModule(named.Obj().Pkg().Path()) {
-		return nil
+		return nil, -1
 	}
 	st, ok := named.Underlying().(*types.Struct)
 	if !ok || r.P.IsGeneratedPos(named.Obj().Pos()) {
-		return nil
+		return nil, -1
 	}
 	var A *ssa.Alloc
 	var succ []*ssa.BasicBlock
@@ -792,16 +812,16 @@ func (r *Resolver) recordResult(h *ssa.Function, idx int) *Term {
 		succ = append(succ, b)
 		u, ok := ret.Results[idx].(*ssa.UnOp)
 		if !ok || u.Op != token.MUL {
-			return nil
+			return nil, -1
 		}
 		al, ok := u.X.(*ssa.Alloc)
 		if !ok || (A != nil && al != A) {
-			return nil
+			return nil, -1
 		}
 		A = al
 	}
 	if A == nil || len(succ) == 0 {
-		return nil
+		return nil, -1
 	}
 	stores := map[int][]*ssa.Store{}
 	opaque := map[int]bool{}
@@ -835,13 +855,14 @@ func (r *Resolver) recordResult(h *ssa.Function, idx int) *Term {
 			if u, isLoad := x.Val.(*ssa.UnOp); x.Addr == ssa.Value(A) && isLoad && u.Op == token.MUL && u.X == ssa.Value(A) {
 				continue
 			}
-			return nil
+			return nil, -1
 		default:
-			return nil // whole stores, the address handed on
+			return nil, -1 // whole stores, the address handed on
 		}
 	}
 	t := &Term{Op: "mk", Name: allocName(A)}
 	n := 0
+	nOpaque := 0
 	for i := 0; i < st.NumFields(); i++ {
 		fname := fieldName(A.Type(), i)
 		var val *Term
@@ -860,14 +881,15 @@ func (r *Resolver) recordResult(h *ssa.Function, idx int) *Term {
 			val = &Term{Op: "zero", Name: "zero:" + fname}
 		}
 		if val == nil {
+			nOpaque++
 			val = &Term{Op: "alloc", Name: r.P.Name(h) + "." + fname, Unstable: true}
 		}
 		t.Args = append(t.Args, &Term{Op: "fieldinit", Name: fname, Args: []*Term{val}})
 	}
 	if n == 0 {
-		return nil
+		return nil, nOpaque
 	}
-	return t
+	return t, nOpaque
 }
 
 // failingReturn: the error handed back at this return cannot be nil (it is built here, or the return is reached
@@ -1350,6 +1372,19 @@ func fieldPathName(T types.Type, path []int) string {
 // sameBlockStore: the value most recently stored to the local in the same
 // basic block before the load, provided no call in between can write it
 // (the local escapes to closures or callees only through its address).
+// StoredValue: v is a load of a local variable whose value at that point is unambiguously the one stored just
+// before (a variable kept in memory because a deferred call or closure refers to it): that stored value; else v.
+func StoredValue(v ssa.Value) ssa.Value {
+	if u, ok := v.(*ssa.UnOp); ok && u.Op == token.MUL {
+		if a, ok := u.X.(*ssa.Alloc); ok {
+			if sv := sameBlockStore(u, a); sv != nil {
+				return sv
+			}
+		}
+	}
+	return v
+}
+
 func sameBlockStore(u *ssa.UnOp, a *ssa.Alloc) ssa.Value {
 	b := u.Block()
 	if b == nil {
